@@ -135,3 +135,25 @@ Qed.
 
 (** executable table of starts, as Layout.__init__ builds it: [starts[0..p]] *)
 Definition starts_table (n p : nat) : list nat := List.map (bstart n p) (List.seq 0 (S p)).
+
+(** * The block formula over Z (Python ints), for the translated source expression *)
+From Coq Require Import ZArith.
+Definition bstartZ (n p k : Z) : Z := ((n / p) * k + ((n mod p) * k) / p)%Z.
+Definition bmaxZ (n p : Z) : Z := (if 0 <? n mod p then n / p + 1 else n / p)%Z.
+
+Lemma bstartZ_of_nat n p k :
+  Z.of_nat (bstart n p k) = bstartZ (Z.of_nat n) (Z.of_nat p) (Z.of_nat k).
+Proof.
+  unfold bstart, bstartZ.
+  rewrite Nat2Z.inj_add, !Nat2Z.inj_mul, !Nat2Z.inj_div, Nat2Z.inj_mul, Nat2Z.inj_mod.
+  reflexivity.
+Qed.
+
+Lemma bmaxZ_of_nat n p : 0 < p -> Z.of_nat (bmax n p) = bmaxZ (Z.of_nat n) (Z.of_nat p).
+Proof.
+  intros Hp. unfold bmax, bmaxZ.
+  rewrite <- Nat2Z.inj_mod, <- Nat2Z.inj_div.
+  destruct (Nat.eqb_spec (n mod p) 0) as [E|E].
+  - rewrite E. cbn. reflexivity.
+  - destruct (Z.ltb_spec 0 (Z.of_nat (n mod p))); [|lia]. lia.
+Qed.
